@@ -123,11 +123,54 @@ static std::string c12_scenario(int sc, coop::Sched& s, uint64_t seed, std::stri
         std::string a = c12_judge(o, 1, 0, 3, -1);
         return a.empty() ? c12_judge(o2, 1, 0, 3, -1) : a;
     }
-    default: {  // S8 void promise: resolve || then
+    case 7: {  // S8 void promise: resolve || then
         name = "S8-void-resolve|then";
         Async::Deferred<void> d; Async::Promise<void> p([&](Async::Deferred<void> dd) { d = std::move(dd); });
         run_bodies(s, {[&] { d.resolve(); }, [&] { p.then([&o]() { o.ok++; o.val = 0; }, rejCb); }}, seed);
         return c12_judge(o, 1, 0, 0, -1);
+    }
+    // the derived promise is settled by a different specialisation of the continuation for each combination of parent type
+    // (value / void) and continuation result (value / promise): one scenario per specialisation
+    case 8: {  // S9 void parent, value-returning continuation
+        name = "S9-resolve(void-parent)|then(derived)";
+        Async::Deferred<void> d; Async::Promise<void> p([&](Async::Deferred<void> dd) { d = std::move(dd); });
+        auto q = p.then([]() { return 5; }, Async::Throw);
+        run_bodies(s, {[&] { d.resolve(); }, [&] { q.then(okCb, rejCb); }}, seed);
+        return c12_judge(o, 1, 0, 5, -1);
+    }
+    case 9: {  // S10 void parent, promise-returning continuation, inner settled by a third thread
+        name = "S10-void-parent-inner-promise-third-thread";
+        Async::Deferred<void> d; Async::Promise<void> p([&](Async::Deferred<void> dd) { d = std::move(dd); });
+        Async::Deferred<int> inner; std::atomic<bool> haveInner{false};
+        auto q = p.then([&]() { return Async::Promise<int>([&](Async::Deferred<int> dd) { inner = std::move(dd); haveInner = true; }); }, Async::Throw);
+        run_bodies(s, {[&] { d.resolve(); },
+                       [&] { q.then(okCb, rejCb); },
+                       [&] { if (g_coop) { if (!coop::wait_until([&] { return haveInner.load(); }, 60)) return; } else { while (!haveInner.load()) std::this_thread::yield(); } inner.resolve(8); }}, seed);
+        return c12_judge(o, 1, 0, 8, -1);
+    }
+    case 10: {  // S11 promise-returning continuation whose inner promise is already fulfilled: the derived promise is settled inside resolve(parent)
+        name = "S11-resolve(parent)-inner-already-fulfilled|then(derived)";
+        Async::Deferred<int> d; Async::Promise<int> p([&](Async::Deferred<int> dd) { d = std::move(dd); });
+        auto q = p.then([](int v) { return Async::Promise<int>::resolved(v + 30); }, Async::Throw);
+        run_bodies(s, {[&] { d.resolve(1); }, [&] { q.then(okCb, rejCb); }}, seed);
+        return c12_judge(o, 1, 0, 31, -1);
+    }
+    case 11: {  // S12 reject(void parent) || then(derived), rethrow handler forwards
+        name = "S12-reject(void-parent)|then(derived)";
+        Async::Deferred<void> d; Async::Promise<void> p([&](Async::Deferred<void> dd) { d = std::move(dd); });
+        auto q = p.then([]() { return 5; }, Async::Throw);
+        run_bodies(s, {[&] { d.reject(TestExc(11)); }, [&] { q.then(okCb, rejCb); }}, seed);
+        return c12_judge(o, 0, 1, 0, 11);
+    }
+    default: {  // S13 inner promise REJECTED by a third thread while another thread attaches to the derived promise
+        name = "S13-inner-promise-rejected-by-third-thread";
+        Async::Deferred<int> d; Async::Promise<int> p([&](Async::Deferred<int> dd) { d = std::move(dd); });
+        Async::Deferred<int> inner; std::atomic<bool> haveInner{false};
+        auto q = p.then([&](int) { return Async::Promise<int>([&](Async::Deferred<int> dd) { inner = std::move(dd); haveInner = true; }); }, Async::Throw);
+        run_bodies(s, {[&] { d.resolve(1); },
+                       [&] { q.then(okCb, rejCb); },
+                       [&] { if (g_coop) { if (!coop::wait_until([&] { return haveInner.load(); }, 60)) return; } else { while (!haveInner.load()) std::this_thread::yield(); } inner.reject(TestExc(13)); }}, seed);
+        return c12_judge(o, 0, 1, 0, 13);
     }
     }
 }
@@ -138,10 +181,10 @@ static void run_c12(long cases) {
     for (long i = g_opts.shard; i < cases * g_opts.nshards; i += g_opts.nshards) {
         if (i <= g_skip) continue;
         if (!g_coop && ((i / g_opts.nshards) % 64) == 0) emit(Json().str("t", "progress").num("i", i).num("stride", 64L * g_opts.nshards).done());
-        int sc = (int)(i % 8);
+        int sc = (int)(i % 13);
         uint64_t seed = g_opts.seed * 1000003ull + (uint64_t)i;
-        int strat = (i / 8) % 3 == 0 ? 1 : 0;
-        s.reset(sc == 4 || sc == 6 ? 3 : 2, seed, strat, 1 + (int)((i / 24) % 3), 40);
+        int strat = (i / 13) % 3 == 0 ? 1 : 0;
+        s.reset(sc == 4 || sc == 6 || sc == 9 || sc == 12 ? 3 : 2, seed, strat, 1 + (int)((i / 39) % 3), 40);
         std::string name;
         set_case(i, Json().num("i", i).str("phase", "c12").num("scenario", sc).num("seed", (long long)g_opts.seed).done());
         std::string sym = c12_scenario(sc, s, seed, name);
